@@ -15,16 +15,18 @@ def main():
                "in a fresh copy of `/repo` (demo fails with the patch, passes without, pinned suite 110 passed) before being kept.\n")
     out.append("| seed | needs to manifest | detected by (quick tier) | first violation key |")
     out.append("|---|---|---|---|")
-    n = caught = 0
+    n = caught = own = 0
     for f in sorted(glob.glob(os.path.join(VERIF, "seeded", "*", "meta.json"))):
         m = json.load(open(f))
         n += 1
         det = [c for c, v in m["detected_by"].items() if v]
         caught += bool(det)
+        own += m["property"] in det
         keys = [k for c in det for k in m["violation_keys"].get(c, [])][:1]
         key = keys[0].split("]")[0].lstrip("[") if keys else ""
         out.append(f"| `{m['seed']}`{'' if m['confirmed'] else ' (NOT CONFIRMED)'} | {m['needs_to_manifest']} | {', '.join(det) if det else '**missed**'} | `{key}` |")
-    out.append(f"\n{caught} of {n} seeded changes are reported by the check of their property at the quick tier.\n")
+    out.append(f"\n{caught} of {n} seeded changes are reported at the quick tier; {own} by the check of the property they were written against, "
+               f"{caught - own} only by the check of a neighbouring property whose statement covers the same behaviour (see 13.1).\n")
     rp = os.path.join(VERIF, "mutants", "results.json")
     if os.path.exists(rp):
         rs = json.load(open(rp))
